@@ -8,6 +8,13 @@ from fractions import Fraction
 from ..core import watchdog, Timeout
 from ..oracle import Oracle, OracleMismatch
 
+
+def _isint(x):
+    """an integer of any kind (Python or numpy), but not a bool"""
+    import numbers
+    return isinstance(x, numbers.Integral) and not isinstance(x, bool)
+
+
 # ---- motif shapes as position pairs (0-based positions into the vertex list) -------------
 def _clique(n):
     return [(a, b) for a, b in itertools.combinations(range(n), 2)]
@@ -298,7 +305,7 @@ def _digest(res):
             es = list(res.edge_list)
             return [len(es), sum(hash((int(e[0]), int(e[1]))) % 9973 for e in es if isinstance(e, (tuple, list)) and len(e) == 2),
                     len(res.topologies), sum(hash(str(t)) % 9973 for t in res.topologies), len(res.motif_id),
-                    sum(int(m) % 9973 for m in res.motif_id if isinstance(m, int)), sum(sum(int(x) for x in j) for j in res.joint_degrees)]
+                    sum(int(m) % 9973 for m in res.motif_id if _isint(m)), sum(sum(int(x) for x in j) for j in res.joint_degrees)]
         G = res.G if hasattr(res, "G") else res
         return [G.number_of_nodes(), G.number_of_edges(), sum(hash((min(a, b), max(a, b))) % 9973 for a, b in G.edges()),
                 sum(hash(str(sorted(d.items(), key=str))) % 9973 for _a, _b, d in G.edges(data=True))]
@@ -312,11 +319,11 @@ def _project(rec, res, N):
     if hasattr(res, "edge_list"):
         rec["has_cols"] = True
         for e in res.edge_list:
-            ok = isinstance(e, (tuple, list)) and len(e) == 2 and all(isinstance(x, int) for x in e)
+            ok = isinstance(e, (tuple, list)) and len(e) == 2 and all(_isint(x) for x in e)
             rec["pair_ok"].append(bool(ok))
             rec["edge"].append([int(e[0]), int(e[1])] if ok else [-1, -1])
         rec["top"] = [t if isinstance(t, str) else repr(t) for t in res.topologies]
-        rec["mid"] = [m if isinstance(m, int) else -1 for m in res.motif_id]
+        rec["mid"] = [int(m) if _isint(m) else -1 for m in res.motif_id]
         try:
             rec["jds_out"] = [[int(x) for x in j] for j in res.joint_degrees]
             rec["jds_ok"] = all(isinstance(j, tuple) for j in res.joint_degrees)
@@ -325,7 +332,7 @@ def _project(rec, res, N):
     else:
         G = res.G if hasattr(res, "G") else res
         rec["has_net"] = True
-        rec["net_nodes"] = [int(n) if isinstance(n, int) else -1 for n in G.nodes()]
+        rec["net_nodes"] = [int(n) if _isint(n) else -1 for n in G.nodes()]
         jd = nx.get_node_attributes(G, NN.JOINT_DEGREE)
         rec["net_jd"] = [[int(x) for x in jd[n]] if n in jd else [-1] for n in G.nodes()]
         rec["net_edges"] = [[int(a), int(b)] for a, b in G.edges()]
